@@ -976,6 +976,14 @@ def fbits(t, fexpr):
     return '(uint64_t)%s(%s)' % ('spec_f2u' if t.bits == 32 else 'spec_d2u', fexpr)
 
 
+def fop(t, op, x, y):
+    """float operation in the spec: + and - in CBMC's IEEE theory; * and / through the same macro as the extracted code and
+    the instruction models (an uninterpreted FPU operation in the C10 routing proofs)"""
+    if op in '*/':
+        return 'AVM_%s_f%d(%s, %s)' % ('FMUL' if op == '*' else 'FDIV', t.bits, x, y)
+    return '%s %s %s' % (x, op, y)
+
+
 FARITH = {'operator+=': '+', 'operator-=': '-', 'operator*=': '*', 'operator/=': '/'}
 FARITH_BIN = {'operator+': '+', 'operator-': '-', 'operator*': '*', 'operator/': '/'}
 
@@ -989,11 +997,12 @@ def f_float_arith(c):
             op = FARITH[c.name]
             ens = []
             for i in range(t.W):
-                exp = fbits(t, '%s %s %s' % (('avm_u2f' if t.bits == 32 else 'avm_u2d') + '(' + OLD(t.lane(this, i).replace('(uint64_t)', '', 1)) + ')', op, fval(t, c.a(0), i)))
+                exp = fbits(t, fop(t, op, ('avm_u2f' if t.bits == 32 else 'avm_u2d') + '(' + OLD(t.lane(this, i).replace('(uint64_t)', '', 1)) + ')', fval(t, c.a(0), i)))
                 ens.append(('float %s lane %d' % (c.name, i), same_bits(t, t.lane(this, i), exp)))
             ens.append(('returns *this', '%s == this' % RV))
-            k = Contract('float_' + c.name, ['C10'], ensures=ens, assigns=['*this'], cxx='({this} %s= {0})' % op, setup=RM_SETUP,
-                         flags=['split', 'mul'] if op in '*/' and t.W > 1 else [])
+            k = Contract('float_' + c.name, ['C10'], ensures=ens, assigns=['*this'], cxx='({this} %s= {0})' % op, setup=RM_SETUP)
+            if op in '*/':
+                k.defines = ['AVM_FP_UF']
             return k
         if c.name == 'operator-' and len(c.P) == 0 and c.RT.ct == t.ct:
             sb = '0x80000000ull' if t.bits == 32 else '0x8000000000000000ull'
@@ -1023,9 +1032,11 @@ def f_float_arith(c):
     a0 = c.a(0)
     if t.kind == 'vec' and nm in FARITH_BIN and len(c.P) == 2 and c.PT[1].ct == t.ct and c.RT.ct == t.ct:
         op = FARITH_BIN[nm]
-        ens = [('float %s lane %d' % (nm, i), same_bits(t, t.lane(RV, i), fbits(t, '%s %s %s' % (fval(t, a0, i), op, fval(t, c.a(1), i))))) for i in range(t.W)]
-        return Contract('float_' + nm, ['C10'], ensures=ens, cxx='({0} %s {1})' % op, setup=RM_SETUP,
-                        flags=['split', 'mul'] if op in '*/' and t.W > 1 else [])
+        ens = [('float %s lane %d' % (nm, i), same_bits(t, t.lane(RV, i), fbits(t, fop(t, op, fval(t, a0, i), fval(t, c.a(1), i))))) for i in range(t.W)]
+        k = Contract('float_' + nm, ['C10'], ensures=ens, cxx='({0} %s {1})' % op, setup=RM_SETUP)
+        if op in '*/':
+            k.defines = ['AVM_FP_UF']
+        return k
     if nm == 'sqrt' and len(c.P) == 1 and c.RT.ct == t.ct:
         fn = 'avm_sqrtf' if t.bits == 32 else 'avm_sqrt'
         ens = [('sqrt lane %d' % i, same_bits(t, t.lane(RV, i), fbits(t, '%s(%s)' % (fn, fval(t, a0, i))))) for i in range(t.W)]
